@@ -577,8 +577,30 @@ def layoutJ (j : Json) : M Json := do
       ("total", Json.num (Int.ofNat L.total))])
   | q => throw s!"unknown layout query {q}"
 
+/-- an object in the format of the `new` operation -/
+def jDataObj (j : Json) : M D := do
+  let dims ← jStrList (← jField j "dims")
+  let coords ← (← jArr (← jField j "coords")).mapM jRatList
+  let shape ← jNatList (← jField j "shape")
+  let vals ← (← jArr (← jField j "values")).mapM jGRat
+  let attrs ← match jFieldOpt j "attrs" with | some a => jDict a | none => pure []
+  let dattrs ← match jFieldOpt j "dattrs" with | some a => jDict a | none => pure []
+  pure { dims, coords, values := ⟨shape, vals⟩, attrs, dattrs, hist := [] }
+
 def loadJ (j : Json) : M Json := do
   match ← jStr (← jField j "q") with
+  | "many" => do
+    -- load(list of paths): `files` says what each path loads to (the importers themselves are C06's business)
+    let paths ← jStrList (← jField j "paths")
+    let files ← (← jArr (← jField j "files")).mapM (fun e => do
+      pure ((← jStr (← jField e "path")), (← jDataObj (← jField e "obj"))))
+    let coord ← jRatList (← jField j "coord")
+    let dim := match jFieldOpt j "dim" with | some v => v.getStr?.toOption | none => none
+    let loadOne : String → Except Dnp.Err D := fun p =>
+      match files.find? (fun f => f.1 == p) with | some f => .ok f.2 | none => .error .io
+    match Dnp.Load.loadMany loadOne arangeR paths dim coord with
+    | .ok r => pure (Json.mkObj [("outcome", "ok"), ("obj", objJ r)])
+    | .error e => pure (Json.mkObj [("outcome", Json.str ("raise:" ++ e.toString))])
   | "autodetect" =>
     let p : Dnp.Load.PathInfo := { ext := ← jStr (← jField j "ext"), isDir := (jFieldOpt j "isDir").isSome,
                                    listing := ← jStrList (← jField j "listing") }
